@@ -335,3 +335,30 @@ def c18_stamping_coercer(k: int, start: int) -> bool:
         if "errorId" in (e.get("extensions") or {}):
             return verdict(False)
     return verdict(True)
+
+
+# ---- deeply nested documents: whatever the interpreter's stack allows, execute RETURNS a well-formed response ------------------------------------
+DEPTHS = [50, 100, 200, 240, 250, 300, 600]
+
+
+@obligation(tier="quick", timeout=200, samples=[{"d": 1, "frag": False}, {"d": 5, "frag": True}],
+            selectors=["d: nesting depth of the selection sets (50 .. 600 levels: below, around and far beyond what the Python stack allows)", "frag: the nesting goes through a chain of fragments"],
+            bounds="7 depths x 2 document shapes",
+            note="a document nested deeper than the stack allows is answered like any other request: execute returns (never raises) a well-formed response — data, or data null with errors")
+def c18_deep(d: int, frag: bool) -> bool:
+    """
+    post: _
+    """
+    depth = DEPTHS[pick(d, len(DEPTHS))]
+    frag = pickb(frag)
+    from crosshair.tracers import NoTracing
+    with NoTracing():
+        if frag:
+            n = min(depth, 400)
+            q = "{ ...F0 } " + " ".join("fragment F%d on Query { q { ...F%d } }" % (i, i + 1) for i in range(n)) + " fragment F%d on Query { a }" % n
+        else:
+            q = "{ " + "q { " * depth + "a" + " }" * depth + " }"
+    ok, r = safe(lambda: env.run(ENG.execute(q, initial_value=DATA)))
+    good = ok and wellformed(r, q) and ((r.get("data") is not None) != bool(r.get("errors")))
+    observe(depth, frag, good)          # where exactly the stack ends differs between a plain and a traced interpreter: only the verdict is observed
+    return verdict(good)
